@@ -45,7 +45,8 @@ def run(ctx):
             ctx.design("Session/Store.tla", "Store_mem.cfg", workers=8, timeout=1500, heap="8g", note="memory, 2 threads x 2 sids, 3 saves, clock 0..3")
             ctx.design("Session/Store.tla", "Store_files.cfg", workers=8, timeout=1500, heap="8g", note="files + gc scanner, 2 threads x 2 sids, 3 saves")
             ctx.design("Session/Store.tla", "Store_net.cfg", workers=8, timeout=1500, heap="8g", note="tcp in front of files, 3 saves")
-            ctx.design("Session/Store.tla", "Store_seq.cfg", workers=8, timeout=1500, heap="8g", note="memory, 1 thread, 4 sids, batch 2")
+            ctx.design("Session/Store.tla", "Store_seq.cfg", workers=8, timeout=1500, heap="8g", note="memory, 1 thread, 3 sids, 5 saves, batch 2, clock 0..3")
+            ctx.design("Session/Store.tla", "Store_mem3.cfg", workers=8, timeout=1500, heap="8g", note="memory, 2 threads x 3 sids, 3 saves, batch 1")
             ctx.design("Session/Store.tla", "Store_3thr.cfg", workers=8, timeout=1500, heap="8g", note="memory, 3 threads")
         for cfg, inv in (("Store_bug_GcBoundary.cfg", "LiveKept"), ("Store_bug_GcBoundaryFiles.cfg", "LiveKept"), ("Store_bug_NoReindex.cfg", "IndexConsistent"),
                          ("Store_bug_NoReindexLive.cfg", "LiveKept"), ("Store_bug_GcNoLock.cfg", "LiveKept"), ("Store_bug_LoadNoLock.cfg", "LoadCorrect"),
@@ -192,7 +193,10 @@ def seq_sig(x):
     extra = ""
     if ev.get("e") == "Load":
         extra = ":hit=%s" % str(ev.get("hit")).lower()
-    return "seq:%s:%s:%s%s" % (h.get("be"), h.get("scn"), ev.get("e"), extra)
+    be = h.get("be") or "?"
+    if h.get("scn") == "y2038" and be.startswith("tcp"):
+        be = "tcp"          # one input class: a deadline beyond INT_MAX through the tcp server, whatever its storage
+    return "seq:%s:%s:%s%s" % (be, h.get("scn"), ev.get("e"), extra)
 
 
 def conc_sig(x):
